@@ -250,6 +250,17 @@ pub fn reference_scenario(program: &[Stmt], inputs_json: &str) -> Scenario {
 
 /// The oracle: compare an execution of `sc` with the reference execution of the same program.
 pub fn judge(sc: &Scenario, ex: &Exec, reference: &Exec) -> Option<Viol> {
+    judge_inner(sc, ex, reference).map(|mut v| {
+        if v.detail.chars().count() > 700 {
+            let head: String = v.detail.chars().take(450).collect();
+            let tail: String = v.detail.chars().rev().take(200).collect::<Vec<_>>().into_iter().rev().collect();
+            v.detail = format!("{} ...[{} characters]... {}", head, v.detail.chars().count(), tail);
+        }
+        v
+    })
+}
+
+fn judge_inner(sc: &Scenario, ex: &Exec, reference: &Exec) -> Option<Viol> {
     for t in &ex.threads {
         if let Some(v) = &t.viol {
             return Some(v.clone());
@@ -553,7 +564,13 @@ pub fn gen_envs(rng: &mut Rng, program: &[Stmt], inputs_json: &str) -> Vec<Scena
                         // the statement's last step simply never fires)
                         let i = rng.usize_below(p.len());
                         if rng.chance(1, 2) {
-                            let at = if rng.chance(1, 2) { 1 + rng.below(8) } else { 1 + rng.below(400) };
+                            // early, or anywhere in a long statement (a recursion hundreds of
+                            // calls deep has thousands of steps)
+                            let at = match rng.below(3) {
+                                0 => 1 + rng.below(8),
+                                1 => 1 + rng.below(400),
+                                _ => 1 + rng.below(6000),
+                            };
                             p[i].yield_at.push(at);
                         } else {
                             // inside a built-in / comparison / stringification
@@ -570,7 +587,7 @@ pub fn gen_envs(rng: &mut Rng, program: &[Stmt], inputs_json: &str) -> Vec<Scena
                     if preempt {
                         for it in noise.iter_mut() {
                             if rng.chance(1, 3) {
-                                it.yield_at.push(1 + rng.below(12));
+                                it.yield_at.push(if rng.chance(2, 3) { 1 + rng.below(12) } else { 1 + rng.below(3000) });
                             }
                             if rng.chance(1, 3) {
                                 it.yield_heap_at.push(1 + rng.below(40));
